@@ -897,10 +897,41 @@ def corr_cbin(ctx):
 
 
 # ---------------------------------------------------------------------------------------------
+def scale_interp_case(ctx, j):
+    """a few channels, MORE samples than any block an implementation could work in (2^16, 30000, 60000 ...), not a multiple of them"""
+    rng = ctx.subrng(23, j)
+    P0, K0 = float(ctx.consts.get('INTERP_P', 1.3)), float(ctx.consts.get('INTERP_KRIGING_UM', 20))
+    gk = str(rng.choice(GEOMS))
+    nc = int(rng.integers(4, 13))
+    ns = int(rng.choice([65536 + 1, 65536 + 4464, 70001, 100000, 131072 + 777, 2 * 60000 + 5]))
+    x, y = geometry(gk, nc, rng)
+    lab = np.zeros(nc, dtype=int)
+    lab[rng.choice(nc, size=int(rng.integers(1, max(2, nc // 2))), replace=False)] = rng.choice([1, 2], size=1)
+    if rng.random() < 0.4:
+        lab[-1] = 3
+    d = rng.standard_normal((nc, ns)) * 50 + 20.0 * np.arange(nc)[:, None]          # every channel around its own level
+    c = dict(nc=nc, ns=ns, lab=lab, x=x, y=y, data=d, p=P0, krig=K0, default=True,
+             tags=('interp', 'scale', 'scale-ns>65536', 'geom=' + gk))
+    c['tags'] += apply_form(c, draw_form(rng))
+    return c
+
+
+def scale_interp(ctx):
+    for j in range(ctx.n(4, 16)):
+        c = scale_interp_case(ctx, j)
+        r = oracle_interp(c)
+        ctx.compare('interp-scale', {'op': 'interp-scale', 'j': j, 'nc': c['nc'], 'ns': c['ns'], 'labels': ''.join(map(str, c['lab'].tolist())),
+                                     'form': '/'.join(_form(c)[k] for k in ('dtype', 'order', 'labels', 'xy', 'call'))},
+                    'ok' if r is None else 'C15 fails at scale: ' + str(r)[:300], 'ok', tags=tuple(c['tags']))
+        if r is not None:
+            ctx.mismatches[-1]['payload'] = {'kind': 'interp-scale', 'j': j, 'seed': ctx.seed}
+
+
 def correspondence(ctx):
     import time
     t0 = time.time()
     corr_interp(ctx)
+    scale_interp(ctx)
     t1 = time.time()
     # (d) numeric oracle on injected faults, calibrated margins recorded
     extra, fails = [], []
@@ -977,6 +1008,8 @@ def _small_interp_neighbourhood():
 
 
 def _size(payload):
+    if payload['kind'] == 'interp-scale':
+        return (3, 10 ** 6, 10 ** 6, 0)
     if payload['kind'] == 'interp':
         return (0, payload['nc'], payload['ns'], sum(1 for v in payload['labels'] if v in (1, 2)))
     if payload['kind'] == 'fault':
@@ -991,10 +1024,17 @@ def _check(payload):
         return oracle_fault(payload)[0]
     if payload['kind'] == 'cbin':
         return oracle_cbin(payload)[0]
+    if payload['kind'] == 'interp-scale':
+        import framework as F
+        import importlib
+        c2 = F.Ctx('C15', 'quick', int(payload.get('seed', 0)), importlib.import_module('props.c15'))
+        return oracle_interp(scale_interp_case(c2, int(payload['j'])))
     return None
 
 
-HOW = {'interp': 'python: harness/props/c15.py oracle_interp(_interp_from_payload(input)) — calls ibldsp.voltage.interpolate_bad_channels(data, labels, x, y, p, kriging_distance_um)',
+HOW = {'interp-scale': 'python: harness/props/c15.py oracle_interp(scale_interp_case(ctx, input["j"])) with VERIF_SEED = input["seed"] — a few '
+                       'channels, more than 65536 samples (random content regenerated from the seed), ibldsp.voltage.interpolate_bad_channels',
+       'interp': 'python: harness/props/c15.py oracle_interp(_interp_from_payload(input)) — calls ibldsp.voltage.interpolate_bad_channels(data, labels, x, y, p, kriging_distance_um)',
        'fault': 'python: harness/props/c15.py oracle_fault(input) — synth_fault(seed, …) then ibldsp.voltage.detect_bad_channels(x, fs)',
        'cbin': 'python: harness/props/c15.py oracle_cbin(input) — build_cbin(input) written to a flat float32 file, ibldsp.voltage.detect_bad_channels_cbin(Reader, n_batches, batch_duration)'}
 
@@ -1038,7 +1078,9 @@ def search(ctx, reasons):
             cands.append(m['payload'])
     ops = {m['op'] for m in ctx.mismatches}
     only = None
-    if ops and ops <= {'interp'}:
+    if ops and ops <= {'interp-scale'}:
+        only = 'scale'
+    elif ops and ops <= {'interp'}:
         only = 'interp'
     elif ops and ops <= {'labels', 'fault'}:
         only = 'fault'
